@@ -33,6 +33,12 @@ def handle (line : String) : String :=
     | some cov, some tr =>
       if tr.length < 8 then "eof" else if footerOk cov tr then "ok" else "mismatch"
     | _, _ => "badcase"
+  | ["footer", c, t, _delivery] =>
+    -- the same, the stream reaching the loader in pieces: the verdict does not depend on the delivery
+    match ofHex c, ofHex t with
+    | some cov, some tr =>
+      if tr.length < 8 then "eof" else if footerOk cov tr then "ok" else "mismatch"
+    | _, _ => "badcase"
   | _ => "badcase"
 
 end RSVerif.Drive.C11
